@@ -78,6 +78,10 @@ func (ctx *_OpContextType) encodeRaw(xlen int, as abi.As, arg *abi.AsArgument) (
 		case AEBREAK:
 			return ctx.encodeI(0, 0, 0b_0000_0000_0001), nil
 		default:
+			if ctx.HasShamt {
+				// SLLI/SRLI/SRAI(W): imm[11:5] carries funct7 (imm[5] is shamt[5] on RV64)
+				return ctx.encodeI(ctx.regI(arg.Rd), ctx.regI(arg.Rs1), ctx.Funct7<<5|uint32(arg.Imm)), nil
+			}
 			return ctx.encodeI(ctx.regI(arg.Rd), ctx.regI(arg.Rs1), uint32(arg.Imm)), nil
 		}
 	case _S:
